@@ -213,6 +213,10 @@ pub fn plan(property: &str, tier: Tier) -> Option<Plan> {
         "C07" => {
             let a = ["C07"];
             jobs.push(g("c07/reads", "rel", if q { 6 } else { 9 }).armed(&a));
+            // update handlers that write a variable; C01 is armed too: after every stabilise the observers must show
+            // the from-scratch values for the assignment that was current when it was called (C07's snapshot clause)
+            jobs.push(g("c07/handler_writes", "rel", if q { 6 } else { 8 }).armed(&a));
+            jobs.push(g("c07/handler_writes", "dbg", if q { 5 } else { 7 }).armed(&a));
             jobs.push(g("c01/catalogue", "rel", if q { 6 } else { 8 }).armed(&a));
             jobs.push(g("c01/grammar1", "rel", if q { 6 } else { 8 }).armed(&a));
             jobs.push(g("c09/subs", "rel", if q { 5 } else { 7 }).armed(&a));
@@ -315,6 +319,10 @@ pub fn plan(property: &str, tier: Tier) -> Option<Plan> {
         "C12" => {
             let a = ["C12"];
             let w = |family: &str, profile: &'static str, depth: usize| JobDef::new("drops", family, profile, depth).armed(&a).no_prune();
+            // a variable whose last handle is dropped, with its owning closure, in the middle of a stabilise
+            // (vars world, site `dropped`; only its C12.panic rule is judged here)
+            jobs.push(JobDef::new("vars", "c08/dropped", "rel", if q { 7 } else { 8 }).armed(&a));
+            jobs.push(JobDef::new("vars", "c08/dropped", "dbg", if q { 6 } else { 7 }).armed(&a));
             if q {
                 jobs.push(w("c12/catalogue", "rel", 12));
                 jobs.push(w("c12/catalogue", "dbg", 12));
@@ -398,10 +406,13 @@ pub fn plan(property: &str, tier: Tier) -> Option<Plan> {
                 jobs.push(pk("c16/all-k2", "rel", 6));
                 jobs.push(pk("c16/all-k3", "rel", 4));
                 jobs.push(pk("c16/all-k2", "dbg", 5));
+                jobs.push(pk("c16/shared-pinned-k1", "rel", 8));
             } else {
                 jobs.push(pk("c16/all-k2", "rel", 8));
                 jobs.push(pk("c16/all-k3", "rel", 6));
                 jobs.push(pk("c16/all-k2", "dbg", 7));
+                jobs.push(pk("c16/shared-pinned-k1", "rel", 10));
+                jobs.push(pk("c16/shared-pinned-k2", "rel", 8));
             }
             ("model_checking", "incr_mapi_ / incr_filter_mapi_ / _cutoff variants on BTreeMap and OrdMap x 9 per-key user-function variants (pure map, identity, map2 with an outer var, bind on the value choosing existing / building fresh nodes, functions ignoring their input, one shared node for all keys): all histories of {set map to any of the 3^K maps, set outer var, toggle observer, stabilise} to the depth bound; states merged on engine dump + model + key->node table (validated by the congruence self-check and against an unpruned run)", vec!["K=2 (9 maps) and K=3 (27 maps), values {1,2}, outer var in {0,1,2}"], if q { 60 } else { 1500 })
         }
